@@ -309,7 +309,7 @@ def scan_assumptions(gen_text):
     return sorted(set(items)), hard
 
 
-MISSING_METHOD = re.compile(r"no (?:method|function or associated item) named `(\w+)` found for (?:struct|enum|reference|mutable reference|type) `([^`]+)`")
+MISSING_METHOD = re.compile(r"no (?:method|function or associated item|associated function or constant) named `(\w+)` found for (?:struct|enum|reference|mutable reference|type) `([^`]+)`")
 MISSING_FN = re.compile(r"cannot find function `(\w+)` in this scope")
 MISSING_TYPE = re.compile(r"cannot find type `(\w+)` in this scope")
 
@@ -566,7 +566,10 @@ def run_unit_inner(unit, tier, seed):
         # commit and that the generated unit does not define. A stand-in that is simply gone (statement deleted, condition
         # rewritten over names the unit already knows) leaves a body Verus reads as before: its failures stand.
         base = baseline_calls(unit)
-        defined = set(re.findall(r"\bfn\s+([A-Za-z_][A-Za-z0-9_]*)", "\n".join(gen_lines)))
+        gen_text = "\n".join(gen_lines)
+        defined = set(re.findall(r"\bfn\s+([A-Za-z_][A-Za-z0-9_]*)", gen_text))
+        # std functions the unit gives a specification to (`assume_specification [T::name]`) are modelled as well
+        defined |= set(re.findall(r"assume_specification\s*(?:<[^>\[]*>)?\s*\[[^\]]*?(\w+)\s*\]", gen_text))
         keep = []
         for v in viol:
             short = v["fn"].split("::")[-1]
